@@ -17,8 +17,10 @@ def setup() -> int:
     lib = os.pathsep.join([SPEC, os.path.join(SPEC, 'mc'), os.path.join(SPEC, 'trace')])
     mods = sorted(glob.glob(os.path.join(SPEC, '*.tla')) + glob.glob(os.path.join(SPEC, 'mc', '*.tla')) + glob.glob(os.path.join(SPEC, 'trace', '*.tla')))
     procs = []
+    import tempfile, shutil
+    jtmp = tempfile.mkdtemp(prefix='verif_sany_')          # SANY unpacks the standard modules into java.io.tmpdir on every start
     for m in mods:
-        procs.append((m, subprocess.Popen(['java', f'-DTLA-Library={lib}', '-cp', f'{JAR}:{DEPS}', 'tla2sany.SANY', m],
+        procs.append((m, subprocess.Popen(['java', f'-Djava.io.tmpdir={jtmp}', f'-DTLA-Library={lib}', '-cp', f'{JAR}:{DEPS}', 'tla2sany.SANY', m],
                                           cwd=os.path.dirname(m), stdout=subprocess.PIPE, stderr=subprocess.STDOUT, text=True)))
     for m, p in procs:
         out = p.communicate()[0]
@@ -26,6 +28,7 @@ def setup() -> int:
             print('SANY failed on', m)
             print(out[-1500:])
             ok = False
+    shutil.rmtree(jtmp, ignore_errors=True)
     try:
         cc = ensure_repo_import()
         print('CircuitCalculator from', cc.__path__ if hasattr(cc, '__path__') else cc.__file__)
